@@ -11,14 +11,11 @@ from findings import c08_common as W
 IMPORTS = "From Ford Require Import Base.Str Sem.Calls Sem.CallsSpec Corr.C08."
 THEOREMS = ["C08_strip_levels", "C08_strip_levels_stmt", "C08_keywords_filtered", "C08_literals_inert",
             "C08_literals_any_body", "C08_raw", "C08_raw_segs", "C08_once", "C08_format_inert",
-            "C08_exact", "C08_refuted_unresolved_array", "C08_refuted_same_last", "C08_refuted_intrinsic_named",
-            "C08_refuted_labelled_call", "C08_refuted_format_nospace", "C08_refuted_assoc_expr",
-            "C08_refuted_assoc_crash", "C08_refuted_goto"]
-REGION_KEYS = {1: "unresolved-array", 2: "same-last-component", 3: "intrinsic-named-procedure",
-               4: "labelled-call-without-arguments", 5: "format-without-blank", 6: "associate-expression-selector",
-               7: "sibling-variable-hides-procedure", 8: "associate-function-selector-crash",
-               9: "goto-pattern-unanchored"}
-RE_TYPE = "str * list str * option str * (bool * bool * bool) * option str * str"
+            "C08_exact", "C08_refuted_unresolved_array", "C08_refuted_intrinsic_named", "C08_fixed_witnesses"]
+# open regions of Sem/CallsSpec.v region_of (2, 4, 5, 6, 8, 9 were repaired in FORD; 7 = FORD's name tables differ from
+# the program's: repaired by the C07 fix, so a hit there is a violation)
+REGION_KEYS = {1: "unresolved-array", 3: "intrinsic-named-procedure"}
+RE_TYPE = "str * list str * option str * (bool * bool) * option str * option str * str"
 UNIT_TYPE = "symtab * symtab * list str * option (list str) * option (list stmt) * bool"
 
 
@@ -96,9 +93,9 @@ def sample_statements(rng, n):
 
 
 def re_term(x):
-    calls, sub, (fm, gt, ea), asc, masked = I.regexes(x)
+    calls, sub, (fm, ea), asc, gt, masked = I.regexes(x)
     return (f"({cstr(x)}, {coq_list(cstr(c) for c in calls)}, {coq_opt(sub, cstr)}, "
-            f"({coq_bool(fm)}, {coq_bool(gt)}, {coq_bool(ea)}), {coq_opt(asc, cstr)}, {cstr(masked)})")
+            f"({coq_bool(fm)}, {coq_bool(ea)}), {coq_opt(asc, cstr)}, {coq_opt(gt, cstr)}, {cstr(masked)})")
 
 
 def granular(chk, rng, quick):
@@ -167,10 +164,15 @@ def granular(chk, rng, quick):
     res = chk.coq_judge(IMPORTS, "list (list str) * list chain * str * option (list chain)", "judge_add", terms)
     if res is not None:
         chk.traces += len(acases)
-        for idx in sorted(res)[:3]:
+        dups = [i for i in sorted(res) if res[i] & 2]
+        for idx in dups[:3] + [i for i in sorted(res) if not res[i] & 2][:3]:
             batches, prev, x, out = acases[idx]
-            chk.violation("broken-correspondence", {"what": "_add_procedure_calls vs model", "line": x, "batches": batches,
-                                                    "earlier": prev, "impl": out}, False)
+            if res[idx] & 2:     # property: each call recorded once
+                chk.violation("failing-input", {"what": "_add_procedure_calls records a call chain twice", "line": x,
+                                                "batches": batches, "earlier": prev, "impl": out}, True)
+            else:
+                chk.violation("broken-correspondence", {"what": "_add_procedure_calls vs model", "line": x,
+                                                        "batches": batches, "earlier": prev, "impl": out}, False)
     chk.extra["granular"] = {"regex_strings": len(xs), "strip_cases": len(cs), "add_cases": len(acases)}
 
 
@@ -292,7 +294,16 @@ def end_to_end(chk, rng, nproj):
 
 def replay_findings(chk):
     for key in W.WITNESSES:
-        chk.known(key, W.still_fails(key))
+        bad = W.still_fails(key)
+        if key in W.FIXED:
+            chk.count(("regression", key), sample=None)
+            if bad:      # a repaired defect is back
+                got, expected = W.observe(key)
+                chk.violation("failing-input", {"what": "regression: repaired defect " + key, "source": W.WITNESSES[key][0],
+                                                "unit": ".".join(W.WITNESSES[key][1]), "impl": got,
+                                                "expected": sorted(expected)}, True)
+        else:
+            chk.known(key, bad)
 
 
 def run(chk):
@@ -327,6 +338,10 @@ def _replay(chk, rep):
         out = chk.coq_judge(IMPORTS, RE_TYPE, "judge_re", [re_term(rep["text"])])
         print("regexes:", I.regexes(rep["text"]), "judge:", out)
         return 1 if out else 0
+    if "line" in rep and "batches" in rep:
+        out = I.add_calls(rep["batches"], rep["earlier"], rep["line"])
+        print("_add_procedure_calls:", out, "recorded at the time:", rep.get("impl"))
+        return 1 if out == rep.get("impl") else 0
     if "line" in rep and "retlevel" in rep:
         x, d = rep["line"], rep["retlevel"]
         out = chk.coq_judge(IMPORTS, "str * nat * list str", "judge_strip",
